@@ -105,7 +105,7 @@ func c06Verify(m *pb.Message) error {
 		return fmt.Errorf("bad from: %v", err)
 	}
 	var pub crypto.PubKey
-	if len(m.Key) > 0 {
+	if m.Key != nil { // present on the wire, even if empty
 		pub, err = crypto.UnmarshalPublicKey(m.Key)
 		if err != nil {
 			return fmt.Errorf("bad key: %v", err)
